@@ -982,6 +982,14 @@ func (w *Writer) needsParens(child ir.ExpressionHandle) bool {
 		// ArrayLength expands to "1 + ..." which contains a binary operator.
 		// Matches Rust naga: ArrayLength uses is_scoped wrapping.
 		return true
+	case ir.ExprSelect:
+		// A scalar select is written as `c ? a : b`, which binds weaker than
+		// every binary operator; the vector form is a metal::select() call.
+		condType := w.getExpressionType(k.Condition)
+		if vec, ok := condType.(ir.VectorType); ok && vec.Scalar.Kind == ir.ScalarBool {
+			return false
+		}
+		return true
 	default:
 		return false
 	}
